@@ -320,12 +320,13 @@ theorem fkey_cases (b : UInt64) :
   · left; simp [h]
   · right; simp [h]; omega
 
-theorem fkey_neg_flip (b : UInt64) : fkey (b + 0x8000000000000000) = if b.toNat % 9223372036854775808 = 0 then fkey b - 0 else - fkey b := by
+/-- adding 2^63 modulo 2^64 flips the sign bit: the key changes sign -/
+theorem fkey_neg_flip (b : UInt64) : fkey (b + 0x8000000000000000) = - fkey b := by
   have hb := b.toNat_lt
   have e : (b + 0x8000000000000000).toNat = (b.toNat + 9223372036854775808) % 18446744073709551616 := by
     rw [UInt64.toNat_add]; rfl
   rw [fkey_eq, fkey_eq, e]
-  split <;> split <;> split <;> omega
+  split <;> split <;> omega
 
 theorem subSign_rounded {rnd : Int → UInt64} (h : Rounding rnd) : SubSign (roundedOps rnd) := by
   have key : ∀ a b, fIsNaN a = false → fIsNaN b = false →
@@ -372,8 +373,6 @@ theorem subSign_rounded {rnd : Int → UInt64} (h : Rounding rnd) : SubSign (rou
           rw [fIsNaN_iff, e]; omega
         simp only [ib, if_true, nn, Bool.not_false, Bool.true_and, decide_eq_true_eq]
         rw [fval_zero, fval_pos_iff, fval_neg_iff, hflip]
-        have hne : ¬ b.toNat % 9223372036854775808 = 0 := by omega
-        simp only [hne, if_false]
         constructor <;> omega
       · simp only [ib, Bool.false_eq_true, if_false, h.notNaN, Bool.not_false, Bool.true_and, decide_eq_true_eq]
         have s := h.sign (fval a - fval b)
